@@ -1252,3 +1252,11 @@ V("C17", "benign-decref-under-null-test", UC,
 V("C17", "parse-result-unchecked", PC,
   ("    if (! PyArg_ParseTuple(\n            args, _Py_PARSE_PID \"ii\", &pid, &ioclass, &iodata)) {\n        return NULL;\n    }",
    "    PyArg_ParseTuple(args, _Py_PARSE_PID \"ii\", &pid, &ioclass, &iodata);"), "fires:C17.R8")
+V("C03", "oneshot-without-finally", I,
+  ("                    self._proc.oneshot_enter()\n                    yield\n                finally:\n",
+   "                    self._proc.oneshot_enter()\n                    yield\n                except ZeroDivisionError:\n                    pass\n                if True:\n"),
+  "fires:C03.R7")
+V("C16", "oneshot-without-finally", I,
+  ("                    self._proc.oneshot_enter()\n                    yield\n                finally:\n",
+   "                    self._proc.oneshot_enter()\n                    yield\n                except ZeroDivisionError:\n                    pass\n                if True:\n"),
+  "fires:C16.R1")
